@@ -34,7 +34,7 @@ DOMAINS = {
     "kwargs_iter": [("[{'a':1},{'a':2}]", L("[{'a':1},{'a':2}]")), ("[]", L("[]"))],
     "num": INTS, "num_concurrent": [("0", 0), ("1", 1), ("2", 2)], "value": INTS, "number": INTS,
     "group_name": [("g1", "g1"), ("gx", "gx"), ("a\tb", "a\tb"), ("e\u0301\u212b", "e\u0301\u212b"),      # (not in NFC form)
-                   ("None", "None"), ("my_grp-100%s", "my_grp-100%s"), ("", "")],          # (the text None is a name like any other)
+                   ("None", "None"), ("my_grp-100%s", "my_grp-100%s"), ("", ""), ("g;lock", "g;lock")],          # (the text None is a name like any other)
     "msg": [("hello", "hello"), ("None", "None")], "label": [("lbl", "lbl")],
     "f": INTS, "el": [("kg", "kg")], "level": INTS, "limit": INTS,
     "task_ids": [([], []), (["0"], [0]), (["0", "1"], [0, 1]), (["5"], [5]), (["0", "0"], [0, 0])],
@@ -89,6 +89,17 @@ def build(cmd, choice):
     words = [cmd["name"]]
     args, kwargs = [], {}
     opts = []
+    longs = ["help"] + [dashed(q["name"]) for q in cmd["params"] if q["kind"] in ("opt", "flag")]
+
+    def spelled(name, salt):
+        """The long option as written on the line: now and then abbreviated to a unique prefix (argparse accepts those)."""
+        d = dashed(name)
+        if (len(d) + salt) % 5 != 0:
+            return "--" + d
+        for n in range(2, len(d)):
+            if sum(1 for x in longs if x.startswith(d[:n])) == 1:
+                return "--" + d[:n]
+        return "--" + d
     for p in cmd["params"]:
         if p["name"] not in choice:
             continue
@@ -105,13 +116,13 @@ def build(cmd, choice):
             words.append(text)
             args.append(val)
         elif p["kind"] == "flag":
-            opts.append("--" + dashed(p["name"]))
+            opts.append(spelled(p["name"], len(choice)))
             kwargs[p["name"]] = True
         elif ((len(text) + len(cmd["name"]) + len(choice)) % 3 == 0 or "_" in text or text == "") and " " not in text:
-            opts.append("--" + dashed(p["name"]) + "=" + text)       # the --option=value form
+            opts.append(spelled(p["name"], len(text)) + "=" + text)       # the --option=value form
             kwargs[p["name"]] = val
         else:
-            opts.extend(["--" + dashed(p["name"]), text])
+            opts.extend([spelled(p["name"], len(text) + 1), text])
             kwargs[p["name"]] = val
     line = " ".join(words + opts)
     if cmd["kind"] == "prop":
